@@ -39,7 +39,7 @@ Definition chk_seq_rev (c : list Z * list (list token) * Z * list Z * Z * option
   match c with
   | (init, ps, limit, prio, fuel, o) =>
     match parse_all ps with
-    | Some pats => res_eqb (make_seq_gen (@rev Z) (Z.to_nat fuel) init pats limit prio) o
+    | Some pats => res_eqb (make_seq_gen (@rev label) (Z.to_nat fuel) init pats limit prio) o
     | None => false
     end
   end.
